@@ -232,7 +232,7 @@ more('C10', 'accumulator rule on sweep rewrites', 'C10.j a loop that rebuilds a 
 more('C11', 'repr/equality field coherence; path rule on optional JSON keys; order-insensitive consumption of mappings in equality code; eq/hash pairing of frozen dataclasses',
      'C11.o __repr__ of every JSON-serializable value-equality class reads each field its equality reads (derived / fixed fields tabled); C11.q every path of a branching _json_dict_ (and of '
      'the helpers it calls) writes or tests each field some path writes; C11.r equality / hash code never freezes the entry order of a mapping into a tuple or list; '
-     'C11.s a frozen dataclass with a hand-written __eq__ has a hand-written __hash__')
+     'C11.s a frozen dataclass with a hand-written __eq__ has a hand-written __hash__; C11.t a constructor argument kept verbatim is compared through the verbatim field, not through a digest computed from it (lossless digests tabled)')
 more('C12', 'dimension rule on the sub-circuit matrix product; interpretation of rescoping on model keys',
      'C12.q CircuitOperation._unitary_ brings the matrices of the body to one dimension before multiplying; C12.r moments see keys of earlier moments only, sub-circuits keep enclosing keys by path length and record path + parent path')
 more('C13', 'interpretation of CliffordGate.__pow__ over the model group Z; must-pass-through of the global shift to the phase carrier (with residue reasoning on exponent % 2 ladders)', 'C13.m square-and-multiply returns the k-th power for every integer |k| <= 40; C13.n every method of the CH form that takes global_shift updates omega from it on every normally ending path')
